@@ -440,7 +440,12 @@ class Runner:
 
     def op_add_edges_from(self, op, pre):
         eb = [(_cn(a), _cn(b)) for a, b in op[1]]
-        ok, val = _call(self.cur.add_edges_from, eb)
+        if len(op) > 2:   # weights= branch of DAG.add_edges_from (a separate loop in the source)
+            ok, val = _call(self.cur.add_edges_from, eb, weights=list(op[2]))
+            if ok and any(self.cur.edges[a, b].get("weight") != w for (a, b), w in zip(eb, op[2])):
+                self.fail(f"{self.name}.add_edges_from:weights", f"{op}: edge data {[self.cur.edges[a, b] for a, b in eb]}")
+        else:
+            ok, val = _call(self.cur.add_edges_from, eb)
         post = self.snap()
         mk = (lambda a, b: (a, b)) if self.directed else (lambda a, b: frozenset((a, b)))
         if ok and self.cls != "DBN" and post.edges != pre.edges | {mk(a, b) for a, b in eb}:
@@ -708,6 +713,8 @@ def alphabet(cls, tier):
         A += [["add_nodes_from", ["a1", "bb", "c"], False]]
         A += [["add_edge", u, v] for u in nodes for v in nodes]
         A += [["add_edges_from", [["a1", "bb"], ["bb", "c"], ["c", "a1"]]]]
+        A += [["add_edges_from", [["a1", "bb"], ["bb", "c"], ["c", "a1"]], [0.5, 2, 0.25]], ["add_edges_from", [["c", "bb"], ["bb", "bb"]], [1, 2]],
+              ["add_edges_from", [["c", "a1"]], [1, 2]]]
         A += [["remove_node", v] for v in N3] + [["remove_node", "qq"]]
         A += [["do", [v], ip, sw] for v in (N3 if th else ["bb", "c"]) for ip, sw in ((True, False), (False, True), (False, False))]
         A += [["do", ["bb", "c"], True, False], ["do", "qq", True, False], ["do", ["bb", "qq"], False, True]]
